@@ -138,11 +138,83 @@ func newDsz(b *dsz.Bits) *set {
 	return s
 }
 
+// ---------------------------------------------------------------- members at the 32-bit width and sign boundaries
+
+type hugeCase struct {
+	Kind  int // 0 setz.Bits, 1 setz.Bitmap, 2 dsz.Bits
+	Base  uint
+	Extra []uint // further members below 4096
+}
+
+func genHuge(t *rapid.T) hugeCase {
+	bases := []uint{1<<31 - 1, 1 << 31, 1<<31 + 5, 1<<31 + 64}
+	if pb.Thorough() {
+		bases = append(bases, 1<<32-1, 1<<32, 1<<32+1, 1<<32+130)
+	}
+	return hugeCase{Kind: rapid.IntRange(0, 2).Draw(t, "kind"), Base: rapid.SampledFrom(bases).Draw(t, "base"),
+		Extra: rapid.SliceOfN(rapid.UintRange(0, 4095), 0, 4).Draw(t, "extra")}
+}
+
+func runHuge(c hugeCase, r *pb.Rec) error {
+	if c.Base > 1<<32+1000 || len(c.Extra) > 16 {
+		return nil
+	}
+	var p pair
+	switch c.Kind {
+	case 0:
+		p = pair{newBits(&setz.Bits{}), map[uint]struct{}{}}
+	case 1:
+		p = pair{newBitmap(&setz.Bitmap{}), map[uint]struct{}{}}
+	case 2:
+		p = pair{newDsz(&dsz.Bits{}), map[uint]struct{}{}}
+	default:
+		return nil
+	}
+	for _, x := range append(append([]uint(nil), c.Extra...), c.Base, c.Base+1, c.Base|63) {
+		if x > 1<<33 {
+			return nil
+		}
+		_, had := p.m[x]
+		if ch, rep := p.s.Add(x); rep && ch != !had {
+			return fmt.Errorf("Add(%d) = %v, member before = %v", x, ch, had)
+		}
+		p.m[x] = struct{}{}
+		if !p.s.Contains(x) {
+			return fmt.Errorf("Contains(%d) false after Add", x)
+		}
+	}
+	if err := checkAll(p, fmt.Sprintf("set with members around %d", c.Base)); err != nil {
+		return err
+	}
+	want := sorted(p.m)
+	if p.s.Range != nil {
+		if err := enumCheck("Range", want, -1, p.s.Range); err != nil {
+			return err
+		}
+	}
+	if p.s.All != nil {
+		if err := enumCheck("All", want, -1, p.s.All); err != nil {
+			return err
+		}
+	}
+	if ch, rep := p.s.Remove(c.Base); rep && !ch {
+		return fmt.Errorf("Remove(%d) = false for a member", c.Base)
+	}
+	delete(p.m, c.Base)
+	if p.s.Contains(c.Base) || !p.s.Contains(c.Base+1) || p.s.Len() != len(p.m) {
+		return fmt.Errorf("after Remove(%d): Contains(%d)=%v Contains(%d)=%v Len=%d want false,true,%d", c.Base, c.Base, p.s.Contains(c.Base), c.Base+1, p.s.Contains(c.Base+1), p.s.Len(), len(p.m))
+	}
+	r.ClassIf(c.Base >= 1<<31, "member >= 2^31")
+	r.NonTrivial()
+	return nil
+}
+
 type bop struct {
 	K    int
 	Who  int // 0 receiver, 1 other
 	X    uint
 	Stop int
+	N    int // run length of bAddRun/bRemoveRun
 }
 
 const (
@@ -157,6 +229,8 @@ const (
 	bDiff
 	bInter
 	bMerge
+	bAddRun    // Add X, X+1, ..., X+N-1 (each call checked): whole words become all ones
+	bRemoveRun // Remove X ... X+N-1
 	nB
 )
 
@@ -170,11 +244,17 @@ func genBits(t *rapid.T) bitsCase {
 	x := rapid.OneOf(
 		rapid.SampledFrom([]uint{0, 1, 62, 63, 64, 65, 126, 127, 128, 129, 191, 192, 193, 255, 256}),
 		rapid.UintRange(0, 400), rapid.UintRange(0, 400), rapid.UintRange(0, 400), rapid.UintRange(0, 200), rapid.UintRange(0, 1500), rapid.UintRange(0, 1<<16).Filter(func(x uint) bool { return x%8 == 0 }))
-	kinds := []int{bAdd, bAdd, bAdd, bAdd, bRemove, bRemove, bContains, bGrow, bIter, bRange, bAll, bClone, bDiff, bInter, bMerge, bDiff, bInter, bMerge}
+	kinds := []int{bAdd, bAdd, bAdd, bAdd, bRemove, bRemove, bContains, bGrow, bIter, bRange, bAll, bClone, bDiff, bInter, bMerge, bDiff, bInter, bMerge, bAddRun, bAddRun, bRemoveRun}
 	n := rapid.IntRange(1, 60).Draw(t, "nops")
 	for i := 0; i < n; i++ {
 		c.Ops = append(c.Ops, bop{K: rapid.SampledFrom(kinds).Draw(t, "op"), Who: rapid.SampledFrom([]int{0, 0, 1}).Draw(t, "who"), X: x.Draw(t, "x"),
 			Stop: rapid.IntRange(-1, 4).Draw(t, "stop")})
+		if k := c.Ops[i].K; k == bAddRun || k == bRemoveRun {
+			c.Ops[i].N = rapid.OneOf(rapid.SampledFrom([]int{1, 63, 64, 65, 127, 128, 129, 192}), rapid.IntRange(1, 200)).Draw(t, "run")
+			if rapid.Bool().Draw(t, "aligned") {
+				c.Ops[i].X &^= 63
+			}
+		}
 	}
 	return c
 }
@@ -304,6 +384,32 @@ func runBits0(c bitsCase, r *pb.Rec) error {
 			if afterBulk > 0 && o.Who == 0 {
 				afterBulk = 2
 			}
+		case bAddRun, bRemoveRun:
+			if o.N < 0 || o.N > 256 {
+				return nil
+			}
+			for x := o.X; x < o.X+uint(o.N); x++ {
+				_, had := p.m[x]
+				if o.K == bAddRun {
+					if ch, rep := p.s.Add(x); rep && ch != !had {
+						return fail("run: Add(%d) = %v, member before = %v", x, ch, had)
+					}
+					p.m[x] = struct{}{}
+				} else {
+					if ch, rep := p.s.Remove(x); rep && ch != had {
+						return fail("run: Remove(%d) = %v, member before = %v", x, ch, had)
+					}
+					delete(p.m, x)
+				}
+			}
+			full := false
+			for w := o.X/64 + 1; (w+1)*64 <= o.X+uint(o.N); w++ {
+				full = true
+			}
+			r.ClassIf(full || (o.X%64 == 0 && o.N >= 64), "a whole 64-bit word filled or cleared by a run")
+			if afterBulk > 0 && o.Who == 0 {
+				afterBulk = 2
+			}
 		case bContains:
 			if got := p.s.Contains(o.X); got != had {
 				return fail("Contains = %v want %v", got, had)
@@ -401,7 +507,10 @@ func runBits0(c bitsCase, r *pb.Rec) error {
 }
 
 func init() {
-	pb.Register("bits_sets", pb.Options{Base: 12000, Required: []string{"receiver shorter", "receiver longer", "iterator across word boundary", "clone mutated", "element op after bulk op"},
+	pb.Register("bits_huge", pb.Options{Base: 1, Required: []string{"member >= 2^31"},
+		Rule: "a few members around 2^31 (thorough tier also around 2^32: 256-512 MiB of words per set) plus up to 4 small ones in setz.Bits, setz.Bitmap and dsz.Bits; oracle: Add/Contains/Remove results, Len, Iter, Range and All equal to the sorted member list; every case is non-trivial (few cases: each one allocates and scans 2^25 words)"},
+		genHuge, runHuge)
+	pb.Register("bits_sets", pb.Options{Base: 12000, Required: []string{"receiver shorter", "receiver longer", "iterator across word boundary", "clone mutated", "element op after bulk op", "a whole 64-bit word filled or cleared by a run"},
 		Rule: "<= 60 operations on a (receiver, other) pair of setz.Bits / setz.Bitmap / dsz.Bits: Add/Remove/Contains/Grow/Iter/Range/All (early stop)/Clone (then mutate clone)/Diff/Intersect/Merge, values biased to word boundaries, uniform 0..400 and a few up to 2^16; oracle: map model per set, Len + complete ascending Iter + Cap >= max+1 after every step, other operand unchanged by bulk ops, clone independence; non-trivial = bulk op with the receiver the shorter operand followed by an element operation"},
 		genBits, runBits)
 }
